@@ -661,6 +661,13 @@ class Poly2d:
         else:
             self._norm = lambda x, y: A * (x, y)
 
+    def __getstate__(self):
+        # the normalisation closures can not be pickled, they are rebuilt from (cc, A)
+        return {"cc": self._cc, "A": self._A}
+
+    def __setstate__(self, state):
+        self.__init__(state["cc"], state["A"])
+
     def __call__(self, x: Any, y: Any = None) -> Any:
         """
         Evaluate at points (x, y).
